@@ -1,5 +1,256 @@
 package main
 
-import "github.com/theparanoids/ysshra/internal/verifharness/hx"
+import (
+	"bytes"
+	"crypto/ed25519"
+	"crypto/rand"
+	"flag"
+	"fmt"
+	"os"
+	"os/exec"
+	"sort"
+	"strconv"
+	"strings"
+	"sync"
+	"time"
 
-func registerMore(g *hx.Gen, out *hx.Out) {}
+	"golang.org/x/crypto/ssh"
+	sshagent "golang.org/x/crypto/ssh/agent"
+
+	"github.com/theparanoids/ysshra/agent/yubiagent"
+	"github.com/theparanoids/ysshra/internal/verifharness/hx"
+)
+
+var childSpec = flag.String("child", "", "internal: run one stress scenario in this (race-instrumented) process")
+
+func init() { ops["race"] = runRace }
+
+func registerMore(g *hx.Gen, out *hx.Out) {
+	if hx.Want("race") {
+		genRace(g, out)
+	}
+}
+
+func init() {
+	// the child mode must act before the normal flow: hook through an init-time wrapper of flag parsing
+	for i, a := range os.Args {
+		if a == "-child" && i+1 < len(os.Args) {
+			fmt.Println(stress(os.Args[i+1]))
+			os.Exit(0)
+		}
+	}
+}
+
+// echoAgent: a keyring whose extension requests echo their payload (lets a caller recognise its own reply)
+type echoAgent struct{ sshagent.Agent }
+
+func (e echoAgent) SignWithFlags(k ssh.PublicKey, d []byte, f sshagent.SignatureFlags) (*ssh.Signature, error) {
+	return e.Agent.(sshagent.ExtendedAgent).SignWithFlags(k, d, f)
+}
+func (e echoAgent) Extension(t string, c []byte) ([]byte, error) {
+	time.Sleep(200 * time.Microsecond)
+	return append([]byte(t+":"), c...), nil
+}
+
+// race args: goroutines, ops per goroutine, mode (noup 0/1), seed
+// output: ok | race:<hex> | mixup:<what> | state:<what> | hang
+func runRace(args []string) []string {
+	spec := strings.Join(args, ",")
+	cmd := exec.Command(os.Args[0], "-child", spec)
+	cmd.Env = append(os.Environ(), "GORACE=halt_on_error=0 exitcode=0")
+	var so, se bytes.Buffer
+	cmd.Stdout, cmd.Stderr = &so, &se
+	done := make(chan error, 1)
+	cmd.Start()
+	go func() { done <- cmd.Wait() }()
+	select {
+	case <-done:
+	case <-time.After(60 * time.Second):
+		cmd.Process.Kill()
+		return []string{"hang"}
+	}
+	if i := strings.Index(se.String(), "DATA RACE"); i >= 0 {
+		// name the two racing functions
+		var fns []string
+		for _, l := range strings.Split(se.String()[i:], "\n") {
+			l = strings.TrimSpace(l)
+			if strings.HasPrefix(l, "github.com/theparanoids/ysshra/") && len(fns) < 4 {
+				fns = append(fns, strings.SplitN(strings.TrimPrefix(l, "github.com/theparanoids/ysshra/"), "(", 3)[0]+strings.SplitN(l, ")", 2)[0][strings.Index(l, "("):])
+			}
+		}
+		return []string{"race:" + hx.HexS(strings.Join(fns, " | "))}
+	}
+	res := strings.TrimSpace(so.String())
+	if res == "" {
+		return []string{"childfail:" + hx.HexS(lastN(se.String(), 300))}
+	}
+	return []string{res}
+}
+
+func lastN(s string, n int) string {
+	if len(s) > n {
+		return s[len(s)-n:]
+	}
+	return s
+}
+
+func stress(spec string) string {
+	f := strings.Split(spec, ",")
+	ng, _ := strconv.Atoi(f[0])
+	nops, _ := strconv.Atoi(f[1])
+	seed, _ := strconv.ParseInt(f[3], 10, 64)
+	ring := sshagent.NewKeyring()
+	sock, stop := underlying(echoAgent{ring})
+	defer stop()
+	y, err := yubiagent.NewServer(sock, true)
+	if err != nil {
+		return "newerr"
+	}
+	defer y.Close()
+	// an expired certificate in the underlying agent and a key for hardware certificates: makes the filter write
+	_, caPriv, _ := ed25519.GenerateKey(rand.Reader)
+	caS, _ := ssh.NewSignerFromKey(caPriv)
+	mkKey := func() (ed25519.PrivateKey, ssh.Signer) {
+		_, p, _ := ed25519.GenerateKey(rand.Reader)
+		s, _ := ssh.NewSignerFromKey(p)
+		return p, s
+	}
+	basePriv, baseS := mkKey()
+	ring.Add(sshagent.AddedKey{PrivateKey: &basePriv, Comment: "base"})
+	now := uint64(time.Now().Unix())
+	expired := func() *ssh.Certificate {
+		c := &ssh.Certificate{Key: baseS.PublicKey(), Serial: uint64(time.Now().UnixNano()), CertType: ssh.UserCert, KeyId: "x", ValidAfter: now - 2000, ValidBefore: now - 1000}
+		c.SignCert(rand.Reader, caS)
+		return c
+	}
+	valid := func() *ssh.Certificate {
+		c := &ssh.Certificate{Key: baseS.PublicKey(), Serial: uint64(time.Now().UnixNano()), CertType: ssh.UserCert, KeyId: "x", ValidAfter: now - 2000, ValidBefore: now + 100000}
+		c.SignCert(rand.Reader, caS)
+		return c
+	}
+	var wg sync.WaitGroup
+	var mu sync.Mutex
+	problems := []string{}
+	report := func(s string) { mu.Lock(); problems = append(problems, s); mu.Unlock() }
+	finalKeys := make([]string, ng)
+	for gi := 0; gi < ng; gi++ {
+		wg.Add(1)
+		go func(gi int) {
+			defer wg.Done()
+			g := hx.NewGen(seed*1000 + int64(gi))
+			cl, cc := connect(y)
+			defer cc.Close()
+			cc.SetDeadline(time.Now().Add(40 * time.Second))
+			myPriv, myS := mkKey()
+			have := false
+			for i := 0; i < nops; i++ {
+				switch g.Intn(9) {
+				case 0:
+					if _, err := cl.List(); err != nil {
+						report("list-error")
+					}
+				case 1: // in-process caller of the shared agent (the wire protocol never reaches Signers)
+					if _, err := y.Signers(); err != nil {
+						report("signers-error")
+					}
+				case 2: // sign with the shared base key over data only this goroutine knows
+					data := []byte(fmt.Sprintf("g%d-op%d", gi, i))
+					sig, err := cl.Sign(baseS.PublicKey(), data)
+					if err != nil {
+						report("sign-error")
+					} else if baseS.PublicKey().Verify(data, sig) != nil {
+						report("mixup:sign")
+					}
+				case 3:
+					if cl.Add(sshagent.AddedKey{PrivateKey: &myPriv, Comment: fmt.Sprintf("g%d", gi)}) != nil {
+						report("add-error")
+					}
+					have = true
+				case 4:
+					if have {
+						if cl.Remove(myS.PublicKey()) != nil {
+							report("remove-error")
+						}
+						have = false
+					}
+				case 5: // an expired certificate to purge, directly in the underlying agent
+					ring.Add(sshagent.AddedKey{PrivateKey: &basePriv, Certificate: expired(), Comment: "old"})
+				case 6: // hardware certificate, valid or expired
+					c := valid()
+					if g.Bool() {
+						c = expired()
+					}
+					cl.AddHardCert(c, "yk")
+				case 7: // extension: the reply must carry this goroutine's payload
+					payload := []byte(fmt.Sprintf("ext-g%d-op%d", gi, i))
+					resp, err := y.Extension("echo@verif", payload)
+					if err == nil && !bytes.Contains(resp, payload) {
+						report("mixup:extension")
+					}
+				case 8: // raw forward of an extension frame (code 27): same check
+					payload := []byte(fmt.Sprintf("fwd-g%d-op%d", gi, i))
+					req := append([]byte{27}, sshStr([]byte("echo@verif"))...)
+					req = append(req, payload...)
+					var resp []byte
+					var err error
+					if g.Bool() {
+						resp, err = cl.Forward(req)
+					} else {
+						resp, err = y.Forward(req)
+					}
+					if err == nil && !bytes.Contains(resp, payload) {
+						report("mixup:forward")
+					}
+				}
+			}
+			if have {
+				finalKeys[gi] = fmt.Sprintf("g%d", gi)
+			}
+		}(gi)
+	}
+	wg.Wait()
+	// final state = the sequential effect: the base key plus exactly the keys still added
+	keys, err := ring.List()
+	if err != nil {
+		report("final-list-error")
+	}
+	var got, want []string
+	for _, k := range keys {
+		if strings.HasPrefix(k.Comment, "g") {
+			got = append(got, k.Comment)
+		}
+	}
+	for _, k := range finalKeys {
+		if k != "" {
+			want = append(want, k)
+		}
+	}
+	sort.Strings(got)
+	sort.Strings(want)
+	if strings.Join(got, ",") != strings.Join(want, ",") {
+		report("state:" + strings.Join(got, ",") + "!=" + strings.Join(want, ","))
+	}
+	if len(problems) > 0 {
+		sort.Strings(problems)
+		return problems[0]
+	}
+	return "ok"
+}
+
+func sshStr(b []byte) []byte {
+	l := len(b)
+	return append([]byte{byte(l >> 24), byte(l >> 16), byte(l >> 8), byte(l)}, b...)
+}
+
+func genRace(g *hx.Gen, out *hx.Out) {
+	n := *hx.Count / 10
+	if n < 6 {
+		n = 6
+	}
+	var sets [][]string
+	for i := 0; i < n; i++ {
+		ng := []int{2, 3, 4, 8, 16}[g.Intn(5)]
+		sets = append(sets, []string{strconv.Itoa(ng), strconv.Itoa(20 + g.Intn(30)), "0", strconv.Itoa(g.Intn(1 << 30))})
+	}
+	out.Batch("rc", "race", sets, 3, func(a []string) []string { return safe(runRace, a) })
+}
